@@ -242,6 +242,25 @@ omit [DecidableEq s] in
 /-- the per-vertex map on well-shaped payloads: `v + w * amount` (component-wise, Go's operation order) -/
 theorem alongNormal_v3 (amount : s) (v w : V3 s) : alongNormal amount (ofV3 v) (ofV3 w) = ofV3 (v.Add (w.Scale amount)) := rfl
 
+/-! ## the thin node wrappers of translate / rotate / scale -/
+
+/-- `TranslateAttribute3DNodeData.Process`: `v ↦ v + t` on the wired attribute (default Position), nothing else -/
+theorem translateNode_spec {m m' : MeshVal (List s)} {attr : Option String} {t : V3 s} (hm : m.translateNode attr t = some m') :
+    Changed ⟨3, attr.getD "Position"⟩ (List.map (liftV3 fun v => v.Add t)) m m' := translate_spec hm
+
+/-- `RotateAttribute3DNodeData.Process`: the empty triangle mesh without a mesh input, else `v ↦ q.Rotate v` -/
+theorem rotateNode_spec (attr : Option String) (q : quaternion.Quaternion s) :
+    MeshVal.rotateNode (none : Option (MeshVal (List s))) attr q = some (MeshVal.empty .triangle) ∧
+    ∀ m m' : MeshVal (List s), MeshVal.rotateNode (some m) attr q = some m' →
+      Changed ⟨3, attr.getD "Position"⟩ (List.map (liftV3 fun v => q.Rotate v)) m m' :=
+  ⟨rfl, fun _ _ hm => rotate_spec hm⟩
+
+/-- `ScaleAttribute3DNodeData.Process`: `v ↦ o + (v - o) ∘ a` with `o` defaulting to the zero vector -/
+theorem scaleNode_spec {m m' : MeshVal (List s)} {attr : Option String} {o : Option (V3 s)} {a : V3 s}
+    (hm : m.scaleNode attr o a = some m') :
+    Changed ⟨3, attr.getD "Position"⟩ (List.map (liftV3 fun v => (o.getD V3.Zero).Add ((v.Sub (o.getD V3.Zero)).MultByVector a))) m m' :=
+  scaleAbout_spec hm
+
 /-! ## ScaleAttribute2D / NormalizeAttribute2D / CopyFloatNAttribute -/
 
 /-- `ScaleAttribute2D`: `v ↦ o + (v - o) ∘ a` on the width-2 attribute, nothing else -/
